@@ -611,3 +611,101 @@ def check_reset_for_rerun(ctx, why: str):
         bound = any(isinstance(p_, tuple) and FS.BUILT.value in p_ for p_ in s8[0].site.params) or "FileState.BUILT" in ast.unparse(fi.node)
         ok8 = kind == "loop" and not conditional(l) and any(callee_name(c) == "mark_file_outdated" for c in calls_in(l)) and bound
     ctx.check(ok8, fi.fq, "BUILT outputs of the step are marked outdated", f"built outputs keep their state across a rerun: {why}", "loop with mark_file_outdated()")
+
+
+FILL_METHODS = ("append", "add", "update", "extend", "setdefault")
+
+
+def wiring(fi, collector: str, consumer: str):
+    """Def-use of a local collection: (filled-in-a-loop, consumed-by, detail).
+
+    ``filled``: `collector.append/add/update/extend(...)` or `collector[k] = v` occurs inside a loop of ``fi``.
+    ``consumed``: after that loop, ``collector`` is an argument of a call named ``consumer`` (awaited or not), or the
+    iterable (possibly through .values()/.items()) of a loop whose body calls ``consumer``.
+    """
+    fills = []
+    for l in ast.walk(fi.node):
+        if isinstance(l, (ast.For, ast.AsyncFor, ast.While)):
+            for n in ast.walk(l):
+                if isinstance(n, ast.Call) and isinstance(n.func, ast.Attribute) and n.func.attr in FILL_METHODS and isinstance(n.func.value, ast.Name) and n.func.value.id == collector:
+                    fills.append(n)
+                if isinstance(n, ast.Assign) and any(isinstance(t, ast.Subscript) and isinstance(t.value, ast.Name) and t.value.id == collector for t in n.targets):
+                    fills.append(n)
+    if not fills:
+        return False, False, f"{collector} is never filled inside a loop"
+    first = min(f.lineno for f in fills)
+    consumed = False
+    for c in calls_in(fi.node):
+        if callee_name(c) == consumer and c.lineno > first and any(isinstance(x, ast.Name) and x.id == collector for a in list(c.args) + [k.value for k in c.keywords] for x in ast.walk(a)):
+            consumed = True
+    for l in ast.walk(fi.node):
+        if isinstance(l, (ast.For, ast.AsyncFor)) and l.lineno > first and any(isinstance(x, ast.Name) and x.id == collector for x in ast.walk(l.iter)):
+            if any(callee_name(c) == consumer for c in calls_in(l)):
+                consumed = True
+    return True, consumed, f"filled at line {first}" + ("" if consumed else f", never handed to {consumer}()")
+
+
+def check_wired(ctx, fq: str, collector: str, consumer: str, what: str, why: str):
+    fi = ctx.prog.func(fq)
+    filled, consumed, detail = wiring(fi, collector, consumer)
+    ctx.check(filled and consumed, fq, what, f"{detail}: {why}", f"{collector} -> {consumer}()", where=ctx.where_of(fi))
+
+
+def check_startup_rescans_wired(ctx, why: str):
+    """What the startup rescans select reaches the code that reacts to it (def-use of the local collections)."""
+    check_wired(ctx, "startup.rescan_files", "path_hash_causes", "gather_hashes", "every rescanned file is handed to the hasher", why)
+    rf = ctx.prog.func("startup.rescan_files")
+    # the fill is not under a condition: every selected row is hashed
+    parents = {}
+    for n in ast.walk(rf.node):
+        for c in ast.iter_child_nodes(n):
+            parents[c] = n
+    cond = False
+    for n in ast.walk(rf.node):
+        if isinstance(n, ast.Call) and isinstance(n.func, ast.Attribute) and n.func.attr == "append" and ast.unparse(n.func.value) == "path_hash_causes":
+            node = n
+            while node in parents and not isinstance(parents[node], (ast.For, ast.AsyncFor)):
+                node = parents[node]
+                if isinstance(node, (ast.If, ast.Try, ast.IfExp)):
+                    cond = True
+    ctx.check(not cond, rf.fq, "no selected row is left out of the rescan", f"the hand-over is conditional: {why}", "unconditional append")
+    check_wired(ctx, "startup.rescan_nglobs", "changed_nglobs", "persist_nglob_matches", "a changed match set is persisted (hash dropped, step re-pended)", why)
+    check_wired(ctx, "startup.rescan_env_vars", "steps_to_rerun", "mark_step_pending", "a step whose variable changed is re-pended", why)
+    check_wired(ctx, "startup.rescan_env_vars", "changed_uses", "refresh_env_dep", "the stored value of a changed variable follows the change", why)
+
+
+def check_watcher_wired(ctx, why: str):
+    """Events travel from inotify to the workflow: each hop forwards what it receives."""
+    cl = ctx.prog.func("watcher.AsyncInotifyWrapper.change_loop")
+    puts = [c for c in calls_in(cl.node) if callee_name(c) == "put_nowait" and "change_queue" in ast.unparse(c.func.value) and c.args and isinstance(c.args[0], ast.Tuple)]
+    kinds = {ast.unparse(c.args[0].elts[0]) for c in puts}
+    ctx.check({"Change.DELETED_PARENT", "Change.UPDATED", "change"} <= kinds, cl.fq, "file events, files found in a new directory and removed directories are all queued", f"queued kinds: {sorted(kinds)}: {why}", "three kinds queued", where=ctx.where_of(cl))
+    # the plain file event is forwarded in the arm that is not about directories
+    plain = [c for c in puts if ast.unparse(c.args[0].elts[0]) == "change"]
+    ok = False
+    for n in ast.walk(cl.node):
+        if isinstance(n, ast.If) and "Mask.ISDIR" in ast.unparse(n.test):
+            ok = any(any(c is x for x in ast.walk(st_)) for c in plain for st_ in n.orelse) and not any(isinstance(x, ast.If) for st_ in n.orelse for x in ast.walk(st_))
+    ctx.check(ok, cl.fq, "every event that is not about a directory is queued unconditionally", f"the forwarding is filtered or missing: {why}", "else: put_nowait((change, path))")
+    ro = ctx.prog.func("watcher.Watcher.run_once")
+    loops = [l for l in ast.walk(ro.node) if isinstance(l, (ast.AsyncFor, ast.While)) and any(callee_name(c) == "record_change" for c in calls_in(l))]
+    ctx.check(len(loops) >= 2, ro.fq, "events queued during the build and events of the watch phase are both recorded", f"{len(loops)} loop(s) call record_change: {why}", "two loops")
+    lp = ctx.prog.func("watcher.Watcher.loop")
+    ctx.check(any(callee_name(c) == "run_once" for c in calls_in(lp.node)), lp.fq, "the watcher loop runs a watch phase", f"run_once is never awaited: {why}", "await self.run_once(...)")
+
+
+def check_cleanup_wired(ctx, why: str):
+    """Queued paths are really removed."""
+    tr_ = ctx.prog.func("finalize._try_remove")
+    params = [a.arg for a in tr_.node.args.args]
+    called = any(isinstance(c.func, ast.Name) and c.func.id == params[0] for t in ast.walk(tr_.node) if isinstance(t, ast.Try) for st_ in t.body for c in calls_in(st_)) if params else False
+    ctx.check(called, tr_.fq, "the removal callback is called", f"_try_remove reports success without calling anything: {why}", f"{params[0] if params else '?'}() inside try")
+    rd = ctx.prog.func("finalize.remove_deletable_files")
+    uses = [c for c in calls_in(rd.node) if callee_name(c) == "_try_remove"]
+    ok = any(c.args and ast.unparse(c.args[0]).endswith(".remove") for c in uses)
+    ctx.check(ok, rd.fq, "every queued file is passed to the remover", f"queued files are not removed: {why}", "_try_remove(path.remove)")
+    ctx.check(any(callee_name(c) == "_prune_empty_dirs" for c in calls_in(rd.node)), rd.fq, "queued directories are pruned", f"directories are never pruned: {why}", "_prune_empty_dirs(...)")
+    rv = ctx.prog.func("finalize.revert_optional_steps")
+    ex = [ast.unparse(c.args[0]) for c in calls_in(rv.node) if callee_name(c) == "execute" and c.args]
+    need = ["CREATE_OPTIONAL_STEP_TABLE", "CREATE_OPTIONAL_TO_BE_DELETED_TABLE", "UPDATE_OPTIONAL_STEPS", "SELECT_OPTIONAL_TO_BE_DELETED", "UPDATE_OPTIONAL_TO_BE_DELETED"]
+    ctx.check(all(n in ex for n in need), rv.fq, "the revert executes all of its statements", f"missing: {[n for n in need if n not in ex]}: {why}", "five statements executed")
